@@ -128,10 +128,10 @@ const (
 )
 
 var (
-	plainNames   = []string{"a", "b", "c", "d", "e", "dir", "src", "x1", "node", "lib", "pkg", "cmd", "main", "t", "u"}
+	plainNames   = []string{"a", "b", "c", "d", "e", "dir", "src", "x1", "node", "lib", "pkg", "cmd", "main", "t", "u", "lib64", "v1", "v10", "docs", "docs-old", "pkg-old", "main.go"} // (some are string prefixes of others)
 	bulletNames  = []string{"- x", "*", "a-b", "- - a", "#h", "+", "-", "a*b", "a+b", "* y", "+ z", "--", "-a", "a -", "# h", "a#", "-\t-", "x - y * z + w"}
 	blankNames   = []string{" a", "a ", "  a", "a  ", " a ", "a b", "\ta", "a\t", " \ta", "a \t", " - a", " * ", "a  b"}
-	unicodeNames = []string{"日本語", "ディレクトリ", "é", "e\u0301", "שלום", "𝔘𝔫𝔦", "😀", "a\u0085b", "a\u2028b", "\ufeffa", "a\u00a0", "\u3000a", "ß", "İ", "ǆ", "a\u200bb", "\u202ea", "🧑\u200d🚀", "\u0085", "\u00a0x"}
+	unicodeNames = []string{"日本語", "ディレクトリ", "é", "e\u0301", "שלום", "𝔘𝔫𝔦", "😀", "a\u0085b", "a\u2028b", "\ufeffa", "a\u00a0", "\u3000a", "ß", "İ", "ǆ", "a\u200bb", "\u202ea", "🧑\u200d🚀", "\u0085", "\u00a0x", "r\ufffdsum\ufffd.txt", "\ufffd"} // (the last two hold a validly encoded U+FFFD)
 	controlNames = []string{"a\x00b", "\x01", "a\x07", "\x1b[31mx", "a\x7f", "\x08a", "a\x0bb", "a\x0cb", "a\rb", "\x1f", "a\x00"}
 	quoteNames   = []string{"\"", "'", ":", "#", "\\", "{", "[", "null", "true", "1e3", "~", "- a", "key: v", "a: b", "\"q\"", "'s'", "a\\nb", "{a}", "[1]", "&x", "*x", "!t", "%d", "@", "`", "|", ">", "0x1f", "1", "-1", ".5", "no", "yes", "y", "N", "on", "off", "2001-01-01", "a #c", "a,b", "?", "= x", "[[t]]", "a = 1", "\"\"\"", "'''", "1_000", "inf", "nan", "<<", "=", "\\u0041"}
 	extNames     = []string{"proj.tar.gz", "x.d.ts", "a.gz", "tar.gz", "b.min.css", "x.go", "Makefile", ".go", "a.go.bak", "main.go", "README.md", "go", "a.mod", "o", "x.o", "a.", ".", "..go", "Makefile.go", "lego"}
@@ -194,7 +194,9 @@ func HeadingSafe(s string) bool {
 	if !SpellableName(s) {
 		return false
 	}
-	if strings.HasPrefix(s, "#") || strings.HasPrefix(s, " ") || strings.HasSuffix(s, " ") {
+	// (a name that itself begins with '#' is fine after "# ": the marker ends at the blank; the
+	// speller never omits that blank for such a name)
+	if strings.HasPrefix(s, " ") || strings.HasSuffix(s, " ") {
 		return false
 	}
 	return true
@@ -317,3 +319,22 @@ func DeepMixed(depth int) (depths []int, names []string) {
 }
 
 func itoa(i int) string { return fmt.Sprint(i) }
+
+// LongDup: one root whose children have names of 63, 64, 65, 100 and 255 bytes, each written a
+// second time later with a child of its own (must be merged whatever the length).
+func LongDup() (depths []int, names []string) {
+	depths, names = []int{1}, []string{"long-names"}
+	var ls []string
+	for _, n := range []int{63, 64, 65, 100, 255} {
+		ls = append(ls, strings.Repeat("n", n-len(itoa(n)))+itoa(n))
+	}
+	for _, l := range ls {
+		depths = append(depths, 2, 3)
+		names = append(names, l, "first-child")
+	}
+	for _, l := range ls {
+		depths = append(depths, 2, 3)
+		names = append(names, l, "second-child")
+	}
+	return
+}
